@@ -24,6 +24,7 @@ package grandpa
 
 import (
 	"fmt"
+	"runtime/debug"
 	"sort"
 	"sync"
 	"time"
@@ -718,5 +719,76 @@ func c22CommitRaceCase(c *vcommon.Case) {
 	}
 	if len(calls) > 0 {
 		c.Count("commit_race_finalisation_recorded", 1)
+	}
+}
+
+// c22KeySetRaceCase: network goroutines build the authority key set (handleCommitMessage, catch-up handlers ->
+// authorityKeySet) while the round loop switches to a SHORTER authority list (updateAuthorities: s.state.voters = ...).
+// First seen as a panic of an honest node in handoff/2, seed 1, variant byzantine-removed ("index out of range [5] with
+// length 5"): authorityKeySet ranged over one reading of s.state.voters and indexed another one. The two lists share one
+// backing array here, so that a torn read of the slice header is harmless and only the double read can fail.
+func c22KeySetRaceCase(c *vcommon.Case) {
+	tree := verifTreeFromParents([]int{-1, 0}, 2225)
+	keys := verifKeypairs(0x4a0e, 7)
+	node, err := verifNewNode(tree, keys, verifNodeOpts{Self: 0})
+	if err != nil {
+		c.Inconclusive("set-up failed: " + err.Error())
+		return
+	}
+	defer node.Close()
+	svc := node.Service
+	long := svc.state.voters
+	if len(long) != 7 {
+		c.Inconclusive(fmt.Sprintf("expected 7 voters, the node has %d", len(long)))
+		return
+	}
+	short := long[:5]
+	stop := make(chan struct{})
+	swapped := make(chan int, 1)
+	go func() { // the round loop's updateAuthorities, again and again
+		n := 0
+		for {
+			select {
+			case <-stop:
+				swapped <- n
+				return
+			default:
+			}
+			svc.state.voters = short
+			svc.state.voters = long
+			n += 2
+		}
+	}()
+	var panicked any
+	var stack string
+	sizes := map[int]int{}
+	reads := 0
+	func() {
+		defer func() {
+			if r := recover(); r != nil {
+				panicked, stack = r, string(debug.Stack())
+			}
+		}()
+		for ; reads < 20000; reads++ {
+			sizes[len(svc.authorityKeySet())]++
+		}
+	}()
+	close(stop)
+	n := <-swapped
+	svc.state.voters = long
+	c.Eval(1)
+	c.Count("script:handoff-key-set-vs-shorter-voter-list", 1)
+	c.Count("keyset_race_reads", reads)
+	c.Count("keyset_race_swaps", n)
+	if panicked != nil {
+		c.Violation("panic", fmt.Sprintf("authorityKeySet panicked while the voter list was replaced by a shorter one: %v", panicked),
+			map[string]any{"reads_before_panic": reads, "swaps": n, "stack": stack,
+				"steps": "goroutine A: authorityKeySet() in a loop; goroutine B: s.state.voters = 5 voters / 7 voters alternately (what updateAuthorities does at a hand-off)"})
+		return
+	}
+	for sz := range sizes {
+		if sz != 5 && sz != 7 {
+			c.Count("keyset_race_mixed_size_sets_seen", 1)
+		}
 	}
 }
